@@ -1,8 +1,12 @@
 /-
-  C10 (continued) — splitting or merging supplies, borrows and withdrawals changes nothing (exact arithmetic:
-  the positions are *equal*; under CPython's 35-digit rounding the harness measures the difference, ≤ 1e-18).
+  C10 (continued) — splitting or merging supplies, borrows, withdrawals and repayments (cash or out of collateral) changes
+  nothing (exact arithmetic: the positions are *equal*; under CPython's 35-digit rounding the harness measures the
+  difference, ≤ 1e-18).  For cash repayments the wallet is part of the statement: it gives the same total, up to the 1e-5
+  dust rule of `Asset.sub`, which may snap one run to 0 and not the other.
 -/
 import Proofs.C10
+import Proofs.Lemmas.AaveDebit
+import Proofs.Lemmas.AaveRepayColl
 namespace Demeter
 open Aave
 
@@ -133,6 +137,356 @@ theorem C10_withdraw_split {s s1 s2 s12 : St} (hs : Good aaveExact env s) {tok :
     · exact erase_set _ _ _
     · rw [aset_aset]
 
+/-! ### repay (cash) -/
+
+/-- the two ways a reduction of the scaled debt `base` by `x` ends: entry deleted (remainder below `MIN_TOKEN_VALUE`), or kept
+    with exactly the difference -/
+theorem aave_borAfterSub_cases (bor : AList String BorrowInfo) (tok : String) (info : BorrowInfo) (x I : Rat) (hI : I ≠ 0) :
+    (info.base - x / I < Gen.aaveMinTokenValue ∧
+      AList.get? (borAfterSub bor tok info (subBase aaveExact info.base (x / I))) tok = none) ∨
+    (Gen.aaveMinTokenValue ≤ info.base - x / I ∧
+      ∃ e, AList.get? (borAfterSub bor tok info (subBase aaveExact info.base (x / I))) tok = some e ∧
+        e.base * I = info.base * I - x) := by
+  rcases aave_subBase_cases info.base (x / I) with ⟨hlt, h0⟩ | ⟨hge, heq, hne⟩
+  · left
+    refine ⟨hlt, ?_⟩
+    rw [h0]; unfold borAfterSub; simp only [if_true]
+    exact aget_erase_self' _ _
+  · right
+    refine ⟨hge, { info with base := subBase aaveExact info.base (x / I) }, ?_, ?_⟩
+    · unfold borAfterSub
+      simp only [hne, if_false]; exact aget_set_self _ _ _
+    · show subBase aaveExact info.base (x / I) * I = _
+      rw [heq]; field_simp
+
+/-- the common core of the repay splits: three accepted cash repayments `p₁` on `s`, `p₂` on the state the first one left, and
+    `p₁₂` on `s`, where `p₁ + p₂ = p₁₂` (the amounts may be `None` = "the whole debt at that moment") -/
+theorem aave_repay_split_core (hI : AavePosIdx env) {s s1 s2 s12 : St} (hs : Good aaveExact env s) {tok : String}
+    {a1 a2 a12 : Option Rat} {c1 c2 c12 : Option String}
+    (h1 : repay aaveExact env tok a1 false c1 s = (.ok (), s1))
+    (h2 : repay aaveExact env tok a2 false c2 s1 = (.ok (), s2))
+    (h12 : repay aaveExact env tok a12 false c12 s = (.ok (), s12))
+    (hsum : ∀ info st info1, AList.get? s.borrows tok = some info → env.statusOf tok = .ok st → st.varIdx ≠ 0 →
+      AList.get? s1.borrows tok = some info1 →
+      info1.base = info.base - a1.getD (info.base * st.varIdx) / st.varIdx →
+      a1.getD (info.base * st.varIdx) + a2.getD (info1.base * st.varIdx) = a12.getD (info.base * st.varIdx)) :
+    ∃ st info p, env.statusOf tok = .ok st ∧ AList.get? s.borrows tok = some info ∧ p = a12.getD (info.base * st.varIdx) ∧
+    s2.borrows = s12.borrows ∧ s2.supplies = s12.supplies ∧
+      ((info.base - p / st.varIdx < Gen.aaveMinTokenValue ∧
+          AList.get? s2.borrows tok = none ∧ AList.get? s12.borrows tok = none) ∨
+       (Gen.aaveMinTokenValue ≤ info.base - p / st.varIdx ∧ ∃ e, AList.get? s2.borrows tok = some e ∧
+          AList.get? s12.borrows tok = some e ∧ e.base * st.varIdx = info.base * st.varIdx - p)) ∧
+    WalletTook s.wallet s2.wallet tok p ∧ WalletTook s.wallet s12.wallet tok p ∧
+    (∃ b0 x2 x12, AList.get? s.wallet tok = some b0 ∧ s2.wallet = AList.set s.wallet tok x2 ∧
+      s12.wallet = AList.set s.wallet tok x12 ∧ DebitEnds b0 p x2 ∧ DebitEnds b0 p x12 ∧
+      (x2 ≠ x12 → 0 < b0 ∧ |b0 - p| < assetDust * b0)) := by
+  have hs1 : Good aaveExact env s1 := by
+    have := inv_repay (cx := aaveExact) (env := env) tok a1 false c1 s hs
+    rw [h1] at this; exact this
+  obtain ⟨st, info, pa, nb, _, hst, hnz, hg, hpa, hpos, hnb, hcash, _⟩ := repay_inv hs h1
+  obtain ⟨st', info1, pb, nb1, _, hst', _, hg1, hpb, hpos1, hnb1, hcash1, _⟩ := repay_inv hs1 h2
+  obtain ⟨st'', info12, pab, nb12, _, hst'', _, hg12, hpab, hpos12, hnb12, hcash12, _⟩ := repay_inv hs h12
+  rw [hst] at hst' hst''; cases hst'; cases hst''
+  rw [hg] at hg12; cases hg12
+  have epa := hpa rfl
+  have epb := hpb rfl
+  have epab := hpab rfl
+  simp only [aaveExact_mul] at epa epb epab
+  obtain ⟨w1, hw1, k1⟩ := hcash rfl
+  obtain ⟨w2, hw2, k2⟩ := hcash1 rfl
+  obtain ⟨w12, hw12, k12⟩ := hcash12 rfl
+  simp only [aaveExact_div] at hnb hnb1 hnb12 hpos hpos1 hpos12
+  have hidx : 0 < st.varIdx := (hI tok st hst).2
+  have hapos : 0 < pa := by
+    have := mul_pos hpos hidx; rwa [div_mul_cancel₀ _ hnz] at this
+  have hbpos : 0 < pb := by
+    have := mul_pos hpos1 hidx; rwa [div_mul_cancel₀ _ hnz] at this
+  have e1 : s1.borrows = borAfterSub s.borrows tok info nb := congrArg Core.borrows k1
+  have e2 : s2.borrows = borAfterSub s1.borrows tok info1 nb1 := congrArg Core.borrows k2
+  have e12 : s12.borrows = borAfterSub s.borrows tok info nb12 := congrArg Core.borrows k12
+  have p1 : s1.supplies = s.supplies := congrArg Core.supplies k1
+  have p2 : s2.supplies = s1.supplies := congrArg Core.supplies k2
+  have p12 : s12.supplies = s.supplies := congrArg Core.supplies k12
+  have q1 : s1.wallet = w1 := congrArg Core.wallet k1
+  have q2 : s2.wallet = w2 := congrArg Core.wallet k2
+  have q12 : s12.wallet = w12 := congrArg Core.wallet k12
+  -- the first repayment left the entry in place (otherwise the second one would have raised)
+  have hnb_ne : nb ≠ 0 := by
+    intro e
+    rw [e1, e] at hg1
+    unfold borAfterSub at hg1
+    simp only [if_true] at hg1
+    rw [aget_erase_self'] at hg1; cases hg1
+  have hkey : info1 = { info with base := nb } ∧ nb = info.base - pa / st.varIdx := by
+    rcases aave_subBase_cases info.base (pa / st.varIdx) with ⟨_, h0⟩ | ⟨_, heq, _⟩
+    · exact absurd (hnb.trans h0) hnb_ne
+    · refine ⟨?_, hnb.trans heq⟩
+      rw [e1] at hg1
+      unfold borAfterSub at hg1
+      simp only [hnb_ne, if_false, aget_set_self, Option.some.injEq] at hg1
+      exact hg1.symm
+  obtain ⟨hinfo1, hnbeq⟩ := hkey
+  have hadd : pa + pb = pab := by
+    rw [epa, epb, epab]
+    exact hsum info st info1 hg hst hnz hg1 (by rw [hinfo1, ← epa]; exact hnbeq)
+  have hbor : s2.borrows = s12.borrows := by
+    have hsame : nb1 = nb12 := by
+      rw [hnb1, hnb12, hinfo1]
+      show subBase aaveExact nb (pb / st.varIdx) = _
+      apply aave_subBase_congr
+      rw [hnbeq, ← hadd]; field_simp; ring
+    rw [e2, e12, e1, hsame, hinfo1]
+    unfold borAfterSub
+    simp only [hnb_ne, if_false]
+    split
+    · exact erase_set _ _ _
+    · rw [aset_aset]
+  rw [q1] at hw2
+  rw [← hadd] at hw12
+  obtain ⟨b0, x2, x12, g0, ew2, ew12, d2, d12⟩ := aave_debit_two hapos hbpos hw1 hw2 hw12
+  rw [hadd] at d2 d12
+  refine ⟨st, info, pab, hst, hg, epab, hbor, by rw [p2, p1, p12], ?_, ?_, ?_,
+    ⟨b0, x2, x12, g0, by rw [q2]; exact ew2, by rw [q12]; exact ew12, d2, d12, d2.differ d12⟩⟩
+  · rw [hbor, e12, hnb12]
+    rcases aave_borAfterSub_cases s.borrows tok info pab st.varIdx hnz with ⟨h, g⟩ | ⟨h, e, g, he⟩
+    · exact Or.inl ⟨h, g, g⟩
+    · exact Or.inr ⟨h, e, g, g, he⟩
+  · rw [q2, ew2]; exact aave_walletTook_of_set g0 d2
+  · rw [q12, ew12]; exact aave_walletTook_of_set g0 d12
+
+/-- **repay(a) ; repay(b) = repay(a + b)** (cash; all three accepted; coherent start state; positive indices): the same debts
+    afterwards — explicitly, the entry is gone in both runs when the scaled remainder `base − (a+b)/I` is below
+    `MIN_TOKEN_VALUE` (full repayment, dust snap of `sub_base_amount`), and otherwise it holds the amount `base·I − (a+b)` in
+    both —, supplies untouched, and the wallet gave `a + b` in both runs: each wallet is the old one with the token's balance
+    replaced by `b₀ − (a+b)`, or by 0 under `Asset.sub`'s dust rule (`DebitEnds`); the two runs can differ there only inside
+    that dust, `|b₀ − (a+b)| < 1e-5·b₀`. -/
+theorem C10_repay_split (hI : AavePosIdx env) {s s1 s2 s12 : St} (hs : Good aaveExact env s) {tok : String} {a b : Rat}
+    {c1 c2 c12 : Option String}
+    (h1 : repay aaveExact env tok (some a) false c1 s = (.ok (), s1))
+    (h2 : repay aaveExact env tok (some b) false c2 s1 = (.ok (), s2))
+    (h12 : repay aaveExact env tok (some (a + b)) false c12 s = (.ok (), s12)) :
+    s2.borrows = s12.borrows ∧ s2.supplies = s12.supplies ∧
+    (∃ st info, env.statusOf tok = .ok st ∧ AList.get? s.borrows tok = some info ∧
+      ((info.base - (a + b) / st.varIdx < Gen.aaveMinTokenValue ∧
+          AList.get? s2.borrows tok = none ∧ AList.get? s12.borrows tok = none) ∨
+       (Gen.aaveMinTokenValue ≤ info.base - (a + b) / st.varIdx ∧ ∃ e, AList.get? s2.borrows tok = some e ∧
+          AList.get? s12.borrows tok = some e ∧ e.base * st.varIdx = info.base * st.varIdx - (a + b)))) ∧
+    WalletTook s.wallet s2.wallet tok (a + b) ∧ WalletTook s.wallet s12.wallet tok (a + b) ∧
+    (∃ b0 x2 x12, AList.get? s.wallet tok = some b0 ∧ s2.wallet = AList.set s.wallet tok x2 ∧
+      s12.wallet = AList.set s.wallet tok x12 ∧ DebitEnds b0 (a + b) x2 ∧ DebitEnds b0 (a + b) x12 ∧
+      (x2 ≠ x12 → 0 < b0 ∧ |b0 - (a + b)| < assetDust * b0)) := by
+  obtain ⟨st, info, p, hst, hg, hp, r1, r2, r3, r4, r5, r6⟩ :=
+    aave_repay_split_core hI hs h1 h2 h12 (fun _ _ _ _ _ _ _ _ => by simp only [Option.getD_some])
+  simp only [Option.getD_some] at hp
+  subst hp
+  exact ⟨r1, r2, ⟨st, info, hst, hg, r3⟩, r4, r5, r6⟩
+
+/-- **repay(a) ; repay(None) = repay(None)**: paying `a` and then "everything that is left" is paying the whole debt at once —
+    the debt entry is gone in both runs, supplies untouched, and the wallet gave the whole debt `base·I` in both (up to
+    `Asset.sub`'s dust rule, as in `C10_repay_split`). -/
+theorem C10_repay_split_rest (hI : AavePosIdx env) {s s1 s2 s12 : St} (hs : Good aaveExact env s) {tok : String} {a : Rat}
+    {c1 c2 c12 : Option String}
+    (h1 : repay aaveExact env tok (some a) false c1 s = (.ok (), s1))
+    (h2 : repay aaveExact env tok none false c2 s1 = (.ok (), s2))
+    (h12 : repay aaveExact env tok none false c12 s = (.ok (), s12)) :
+    s2.borrows = s12.borrows ∧ s2.supplies = s12.supplies ∧
+    AList.get? s2.borrows tok = none ∧ AList.get? s12.borrows tok = none ∧
+    (∃ st info, env.statusOf tok = .ok st ∧ AList.get? s.borrows tok = some info ∧
+      WalletTook s.wallet s2.wallet tok (info.base * st.varIdx) ∧ WalletTook s.wallet s12.wallet tok (info.base * st.varIdx) ∧
+      (∃ b0 x2 x12, AList.get? s.wallet tok = some b0 ∧ s2.wallet = AList.set s.wallet tok x2 ∧
+        s12.wallet = AList.set s.wallet tok x12 ∧ DebitEnds b0 (info.base * st.varIdx) x2 ∧
+        DebitEnds b0 (info.base * st.varIdx) x12 ∧
+        (x2 ≠ x12 → 0 < b0 ∧ |b0 - info.base * st.varIdx| < assetDust * b0))) := by
+  obtain ⟨st, info, p, hst, hg, hp, r1, r2, r3, r4, r5, r6⟩ :=
+    aave_repay_split_core hI hs h1 h2 h12 (fun info st info1 _ _ hnz _ hb => by
+      simp only [Option.getD_some, Option.getD_none] at hb ⊢
+      rw [hb]; field_simp; ring)
+  simp only [Option.getD_none] at hp
+  subst hp
+  have hnz : st.varIdx ≠ 0 := ne_of_gt (hI tok st hst).2
+  have hgone : AList.get? s2.borrows tok = none ∧ AList.get? s12.borrows tok = none := by
+    rcases r3 with ⟨_, g2, g12⟩ | ⟨hge, _⟩
+    · exact ⟨g2, g12⟩
+    · exfalso
+      have : info.base - info.base * st.varIdx / st.varIdx = 0 := by field_simp; ring
+      rw [this] at hge
+      exact absurd aave_minToken_pos (not_lt.mpr hge)
+  exact ⟨r1, r2, hgone.1, hgone.2, st, info, hst, hg, r4, r5, r6⟩
+
+/-! ### repay out of collateral -/
+
+theorem aave_subBase_ne_zero {b x : Rat} (h : subBase aaveExact b x ≠ 0) : subBase aaveExact b x = b - x := by
+  rcases aave_subBase_cases b x with ⟨_, h0⟩ | ⟨_, heq, _⟩
+  · exact absurd h0 h
+  · exact heq
+
+/-- two reductions of one supply (the first leaves the entry in place) = one reduction by the sum -/
+theorem aave_supAfterSub_two (sup : AList String SupplyInfo) (tok : String) (info : SupplyInfo) (x y : Rat)
+    (h1 : subBase aaveExact info.base x ≠ 0) :
+    supAfterSub (supAfterSub sup tok info (subBase aaveExact info.base x)) tok { info with base := subBase aaveExact info.base x }
+        (subBase aaveExact (subBase aaveExact info.base x) y) =
+      supAfterSub sup tok info (subBase aaveExact info.base (x + y)) := by
+  have e : subBase aaveExact (subBase aaveExact info.base x) y = subBase aaveExact info.base (x + y) := by
+    apply aave_subBase_congr
+    rw [aave_subBase_ne_zero h1]; ring
+  rw [e]
+  unfold supAfterSub
+  simp only [h1, if_false]
+  split
+  · exact erase_set _ _ _
+  · rw [aset_aset]
+
+theorem aave_borAfterSub_two (bor : AList String BorrowInfo) (tok : String) (info : BorrowInfo) (x y : Rat)
+    (h1 : subBase aaveExact info.base x ≠ 0) :
+    borAfterSub (borAfterSub bor tok info (subBase aaveExact info.base x)) tok { info with base := subBase aaveExact info.base x }
+        (subBase aaveExact (subBase aaveExact info.base x) y) =
+      borAfterSub bor tok info (subBase aaveExact info.base (x + y)) := by
+  have e : subBase aaveExact (subBase aaveExact info.base x) y = subBase aaveExact info.base (x + y) := by
+    apply aave_subBase_congr
+    rw [aave_subBase_ne_zero h1]; ring
+  rw [e]
+  unfold borAfterSub
+  simp only [h1, if_false]
+  split
+  · exact erase_set _ _ _
+  · rw [aset_aset]
+
+theorem aave_swap_exact {f t : String} {a x : Rat} (h : swapAmount aaveExact env f t a = .ok x) :
+    ∃ pf pt, env.priceOf f = .ok pf ∧ env.priceOf t = .ok pt ∧ pt ≠ 0 ∧ x = a * pf / pt := by
+  unfold swapAmount at h
+  cases hpf : env.priceOf f with
+  | error e => rw [hpf] at h; cases h
+  | ok pf =>
+    cases hpt : env.priceOf t with
+    | error e => rw [hpf, hpt] at h; cases h
+    | ok pt =>
+      rw [hpf, hpt] at h
+      have hin : divE aaveExact (aaveExact.mul (aaveExact.mul a 1) pf) pt = .ok x := h
+      obtain ⟨hnz, hx⟩ := divE_ok_eq hin
+      simp only [aaveExact_mul, aaveExact_div, mul_one] at hx
+      exact ⟨pf, pt, rfl, rfl, hnz, hx⟩
+
+/-- the amount a repayment out of collateral settles on, in exact arithmetic: `a0`, or the counter-value `S·pc/pb` of the whole
+    collateral balance `S` when `a0` is worth more than that (`a0·pb/pc > S`) -/
+theorem aave_capped_exact {tok ctok : String} {a0 p : Rat} {cinfo : SupplyInfo} {cst : TokStatus} {pb pc : Rat}
+    (hpb : env.priceOf tok = .ok pb) (hpc : env.priceOf ctok = .ok pc)
+    (h : CappedPayback aaveExact env tok ctok a0 cinfo cst p) :
+    (a0 * pb / pc > cinfo.base * cst.liqIdx ∧ pb ≠ 0 ∧ p = cinfo.base * cst.liqIdx * pc / pb) ∨
+    (¬ a0 * pb / pc > cinfo.base * cst.liqIdx ∧ p = a0) := by
+  obtain ⟨need, hneed, hcase⟩ := h
+  obtain ⟨pf, pt, h1, h2, _, hx⟩ := aave_swap_exact hneed
+  rw [hpb] at h1; rw [hpc] at h2; cases h1; cases h2
+  subst hx
+  simp only [aaveExact_mul] at hcase
+  rcases hcase with ⟨hc, hs⟩ | ⟨hc, hp⟩
+  · obtain ⟨pf, pt, h1, h2, hnz, hx⟩ := aave_swap_exact hs
+    rw [hpc] at h1; rw [hpb] at h2; cases h1; cases h2
+    exact Or.inl ⟨hc, hnz, hx⟩
+  · exact Or.inr ⟨hc, hp⟩
+
+/-- **repay-with-collateral(a) ; repay-with-collateral(b) = repay-with-collateral(a + b)** (same collateral token, all three
+    accepted, coherent start state, exact arithmetic): the same debts, the same supplies (also when a repayment is capped by
+    what the collateral supply holds: then the pieces `a` and `S·pc/pb − a` add up to the capped whole, and when the dust rule
+    of `sub_base_amount` deletes the debt or the collateral entry at the end), and the wallet is never touched. -/
+theorem C10_repay_collateral_split {s s1 s2 s12 : St} (hs : Good aaveExact env s) {tok : String} {a b : Rat}
+    {ct : Option String}
+    (h1 : repay aaveExact env tok (some a) true ct s = (.ok (), s1))
+    (h2 : repay aaveExact env tok (some b) true ct s1 = (.ok (), s2))
+    (h12 : repay aaveExact env tok (some (a + b)) true ct s = (.ok (), s12)) :
+    s2.borrows = s12.borrows ∧ s2.supplies = s12.supplies ∧ s2.wallet = s.wallet ∧ s12.wallet = s.wallet := by
+  have hs1 : Good aaveExact env s1 := by
+    have := inv_repay (cx := aaveExact) (env := env) tok (some a) true ct s hs
+    rw [h1] at this; exact this
+  obtain ⟨st, info, cinfo, cst, p1, in1, hst, hnz, hg, hci, hcst, hcnz, cap1, sw1, k1⟩ := repay_coll_inv hs h1
+  obtain ⟨st', info1, cinfo1, cst', p2, in2, hst', _, hg1, hci1, hcst', _, cap2, sw2, k2⟩ := repay_coll_inv hs1 h2
+  obtain ⟨st'', info', cinfo', cst'', p12, in12, hst'', _, hg', hci', hcst'', _, cap12, sw12, k12⟩ := repay_coll_inv hs h12
+  rw [hst] at hst' hst''; cases hst'; cases hst''
+  rw [hcst] at hcst' hcst''; cases hcst'; cases hcst''
+  rw [hg] at hg'; cases hg'
+  rw [hci] at hci'; cases hci'
+  obtain ⟨pb, pc, hpb, hpc, hpcnz, ein1⟩ := aave_swap_exact sw1
+  obtain ⟨_, _, hpb', hpc', _, ein2⟩ := aave_swap_exact sw2
+  obtain ⟨_, _, hpb'', hpc'', _, ein12⟩ := aave_swap_exact sw12
+  rw [hpb] at hpb' hpb''; rw [hpc] at hpc' hpc''; cases hpb'; cases hpc'; cases hpb''; cases hpc''
+  simp only [Option.getD_some] at cap1 cap2 cap12
+  have c1 := aave_capped_exact hpb hpc cap1
+  have c2 := aave_capped_exact hpb hpc cap2
+  have c12 := aave_capped_exact hpb hpc cap12
+  simp only [aaveExact_div, aaveExact_mul] at k1 k2 k12
+  have e1s : s1.supplies = _ := congrArg Core.supplies k1
+  have e1b : s1.borrows = _ := congrArg Core.borrows k1
+  -- after the first repayment both entries are still there (the second call found them)
+  have hcnb1 : subBase aaveExact cinfo.base (in1 / cst.liqIdx) ≠ 0 := by
+    intro e
+    rw [e1s, e] at hci1
+    unfold supAfterSub at hci1
+    simp only [if_true] at hci1
+    rw [aget_erase_self'] at hci1; cases hci1
+  have hnb1 : subBase aaveExact info.base (p1 / st.varIdx) ≠ 0 := by
+    intro e
+    rw [e1b, e] at hg1
+    unfold borAfterSub at hg1
+    simp only [if_true] at hg1
+    rw [aget_erase_self'] at hg1; cases hg1
+  have hcinfo1 : cinfo1 = { cinfo with base := subBase aaveExact cinfo.base (in1 / cst.liqIdx) } := by
+    rw [e1s] at hci1
+    unfold supAfterSub at hci1
+    simp only [hcnb1, if_false, aget_set_self, Option.some.injEq] at hci1
+    exact hci1.symm
+  have hinfo1 : info1 = { info with base := subBase aaveExact info.base (p1 / st.varIdx) } := by
+    rw [e1b] at hg1
+    unfold borAfterSub at hg1
+    simp only [hnb1, if_false, aget_set_self, Option.some.injEq] at hg1
+    exact hg1.symm
+  -- the first repayment was not capped: a capped one takes the whole collateral supply
+  have hp1 : p1 = a := by
+    rcases c1 with ⟨_, hpbnz, e⟩ | ⟨_, e⟩
+    · exfalso
+      apply hcnb1
+      have : cinfo.base - in1 / cst.liqIdx = 0 := by rw [ein1, e]; field_simp; ring
+      rcases aave_subBase_cases cinfo.base (in1 / cst.liqIdx) with ⟨_, h0⟩ | ⟨hge, _, _⟩
+      · exact h0
+      · rw [this] at hge; exact absurd aave_minToken_pos (not_lt.mpr hge)
+    · exact e
+  have hcb1 : cinfo1.base = cinfo.base - a * pb / pc / cst.liqIdx := by
+    rw [hcinfo1]; show subBase aaveExact cinfo.base (in1 / cst.liqIdx) = _
+    rw [aave_subBase_ne_zero hcnb1, ein1, hp1]
+  -- the pieces add up
+  have hsum : p1 + p2 = p12 := by
+    rw [hp1]
+    rw [hcb1] at c2
+    have hS1 : (cinfo.base - a * pb / pc / cst.liqIdx) * cst.liqIdx = cinfo.base * cst.liqIdx - a * pb / pc := by
+      field_simp
+    rw [hS1] at c2
+    have hadd : (a + b) * pb / pc = a * pb / pc + b * pb / pc := by field_simp
+    rcases c2 with ⟨hc2, hpbnz, e2⟩ | ⟨hc2, e2⟩
+    · rcases c12 with ⟨hc12, _, e12⟩ | ⟨hc12, _⟩
+      · rw [e2, e12]; field_simp; ring
+      · exfalso; apply hc12; rw [hadd]; linarith
+    · rcases c12 with ⟨hc12, _, _⟩ | ⟨_, e12⟩
+      · exfalso; apply hc2; rw [hadd] at hc12; linarith
+      · rw [e2, e12]
+  have hinsum : in1 / cst.liqIdx + in2 / cst.liqIdx = in12 / cst.liqIdx := by
+    rw [ein1, ein2, ein12, ← hsum]; field_simp
+  have hpsum : p1 / st.varIdx + p2 / st.varIdx = p12 / st.varIdx := by rw [← hsum]; field_simp
+  have e2b : s2.borrows = borAfterSub s1.borrows tok info1 (subBase aaveExact info1.base (p2 / st.varIdx)) :=
+    congrArg Core.borrows k2
+  have e12b : s12.borrows = borAfterSub s.borrows tok info (subBase aaveExact info.base (p12 / st.varIdx)) :=
+    congrArg Core.borrows k12
+  have e1b' : s1.borrows = borAfterSub s.borrows tok info (subBase aaveExact info.base (p1 / st.varIdx)) := e1b
+  have e2s : s2.supplies = supAfterSub s1.supplies (ct.getD tok) cinfo1 (subBase aaveExact cinfo1.base (in2 / cst.liqIdx)) :=
+    congrArg Core.supplies k2
+  have e12s : s12.supplies = supAfterSub s.supplies (ct.getD tok) cinfo (subBase aaveExact cinfo.base (in12 / cst.liqIdx)) :=
+    congrArg Core.supplies k12
+  have e1s' : s1.supplies = supAfterSub s.supplies (ct.getD tok) cinfo (subBase aaveExact cinfo.base (in1 / cst.liqIdx)) := e1s
+  have w1 : s1.wallet = s.wallet := congrArg Core.wallet k1
+  have w2 : s2.wallet = s1.wallet := congrArg Core.wallet k2
+  refine ⟨?_, ?_, w2.trans w1, congrArg Core.wallet k12⟩
+  · rw [e2b, e12b, e1b', hinfo1, ← hpsum]
+    exact aave_borAfterSub_two _ _ _ _ _ hnb1
+  · rw [e2s, e12s, e1s', hcinfo1, ← hinsum]
+    exact aave_supAfterSub_two _ _ _ _ _ hcnb1
+
 /-! ### non-vacuity: concrete accepted calls in exact arithmetic -/
 
 def c10Env : Env :=
@@ -163,5 +517,22 @@ example : (step aaveExact c10Env (step aaveExact c10Env c10St (.supply "WETH" 11
   decide +kernel
 example : (step aaveExact c10Env (step aaveExact c10Env c10St (.supply "WETH" 11 true)).2 (.withdraw "WETH" none)).2.wallet
     = [("WETH", 11), ("USDC", 0)] := by decide +kernel
+
+-- repay: 5000 USDC borrowed above; 2000 + 3000 = 5000 (full repayment: the entry disappears, the wallet is back at 0),
+-- 1000 + 1500 = 2500 (half of the scaled debt 4000 is left)
+def c10Bor : St := (step aaveExact c10Env (step aaveExact c10Env c10St (.supply "WETH" 11 true)).2 (.borrow "USDC" (some 5000))).2
+def c10Rep (s : St) (a : Rat) : St := (step aaveExact c10Env s (.repay "USDC" (some a) false none)).2
+def c10RepC (s : St) (a : Rat) : St := (step aaveExact c10Env s (.repay "USDC" (some a) true (some "WETH"))).2
+example : c10IsOk (step aaveExact c10Env c10Bor (.repay "USDC" (some 2000) false none)).1 = true := by decide +kernel
+example : (c10Rep (c10Rep c10Bor 2000) 3000).borrows = [] ∧ (c10Rep c10Bor 5000).borrows = [] ∧
+    (c10Rep (c10Rep c10Bor 2000) 3000).wallet = (c10Rep c10Bor 5000).wallet := by decide +kernel
+example : (c10Rep (c10Rep c10Bor 1000) 1500).borrows = [("USDC", ⟨2000, 5/4⟩)] ∧
+    (c10Rep c10Bor 2500).borrows = [("USDC", ⟨2000, 5/4⟩)] := by decide +kernel
+example : (step aaveExact c10Env (c10Rep c10Bor 1000) (.repay "USDC" none false none)).2.core.borrows = [] := by decide +kernel
+-- out of collateral: 1100 + 2200 = 3300 USDC cost 3.3 WETH = 3 scaled units of the 10 supplied
+example : c10IsOk (step aaveExact c10Env c10Bor (.repay "USDC" (some 1100) true (some "WETH"))).1 = true := by decide +kernel
+example : (c10RepC (c10RepC c10Bor 1100) 2200).supplies = [("WETH", ⟨7, true, 11/10⟩)] ∧
+    (c10RepC c10Bor 3300).supplies = [("WETH", ⟨7, true, 11/10⟩)] ∧
+    (c10RepC (c10RepC c10Bor 1100) 2200).borrows = (c10RepC c10Bor 3300).borrows := by decide +kernel
 
 end Demeter
